@@ -21,10 +21,10 @@ def digest(pid, runs, seed, jobs, hashseed):
     r = subprocess.run([os.path.join(HERE, "check"), pid, "--runs", str(runs), "--jobs", str(jobs),
                         "--no-evidence", "--budget", "3000"], env=env, capture_output=True, text=True,
                        timeout=3600, cwd=HERE)
-    m = re.search(r"sweep_digest=([0-9a-f]+)", r.stdout)
+    m = re.search(r"sweep_digest=([0-9a-f]+) verdict_digest=([0-9a-f]+)", r.stdout)
     if not m:
         return "ERROR rc=%d %s %s" % (r.returncode, r.stdout[-300:], r.stderr[-300:])
-    return m.group(1)
+    return m.group(1) if hashseed == 0 else "verdicts:" + m.group(2)
 
 
 def main():
@@ -39,9 +39,13 @@ def main():
             continue
         for seed in [int(x) for x in a.seeds.split(",")]:
             d = [digest(pid, a.runs, seed, 16, 0), digest(pid, a.runs, seed, 16, 0),
-                 digest(pid, a.runs, seed, 3, 0), digest(pid, a.runs, seed, 16, 1)]
-            ok = len(set(d)) == 1 and not d[0].startswith("ERROR")
-            print("%s seed=%d runs=%d: %s  [16 jobs, 16 jobs again, 3 jobs, PYTHONHASHSEED=1] %s" %
+                 digest(pid, a.runs, seed, 3, 0)]
+            # under another hash seed the raw traces may order hash-keyed collections differently:
+            # the per-run verdicts (ok / violation signature) must be identical
+            v = [digest(pid, a.runs, seed, 16, 1), digest(pid, a.runs, seed, 16, 2)]
+            ok = len(set(d)) == 1 and len(set(v)) == 1 and not d[0].startswith("ERROR") and not v[0].startswith("ERROR")
+            d = d + v
+            print("%s seed=%d runs=%d: %s  [16 jobs, 16 jobs again, 3 jobs | verdicts under PYTHONHASHSEED=1, 2] %s" %
                   (pid, seed, a.runs, "DETERMINISTIC" if ok else "DIVERGED", d))
             sys.stdout.flush()
             if not ok:
